@@ -797,3 +797,50 @@ def lane_api_seq(ctx):
     merged['sequences'] = nseq
     merged['sequence_length'] = length
     return merged
+
+
+# =============================================================== Spec layer (reference encoder / parser in Lean)
+
+def lane_spec(ctx):
+    """the Lean reference encoder `Spec.encValue` / `Spec.argsWire` and the strict reference parser
+    `Spec.parseValue` + `FV.value` against the real code: on C03's domain the real bytes must equal
+    the reference bytes; on grammar-generated wire forms the real decoder must return the value the
+    reference assigns (refused timestamps: the real decoder must raise)."""
+    import grammar
+    le = Lane('spec.enc')
+    lp = Lane('spec.parse')
+    la = Lane('spec.args')
+    g = ctx.gen
+    for i in range(5000 if ctx.thorough else 900):
+        v = g.value_ok(depth=g.r.choice([0, 1, 2, 3]), breadth=g.r.choice([1, 2, 4]))
+        lg = i % 3 == 0
+
+        def mk_real():
+            with real.legacy(lg):
+                o = outcome(encode.encode_table_value, v, show=show_bytes)
+            return o if o.startswith('ok') else 'none'
+        le.try_add(lambda: 'spec.encvalue %d %s' % (lg, sx(v)), mk_real, repr(v)[:300], type(v).__name__)
+    for i in range(5000 if ctx.thorough else 900):
+        tag = grammar.TAGS[i % len(grammar.TAGS)] if i < 20 * len(grammar.TAGS) else None
+        data, exp = grammar.field(g, g.r.choice([0, 1, 2, 3]), tag)
+        junk = g.r.choice([b'', b'\x00', b'\xce\x01'])
+        o = outcome(decode.embedded_value, data + junk, show=show_dec)
+        if not o.startswith('ok'):
+            o = 'refused' if o == 'err ValueError' and data[:1] == b'T' else o
+        lp.add('spec.parsevalue %s' % hexb(data + junk), o, repr(data)[:200], 'tag %r' % data[:1])
+    metas = ctx.generated['catalogue']['methods']
+    for meta in metas:
+        cls = commands.INDEX_MAPPING.get(meta['key'])
+        if cls is None:
+            continue
+        bits = [i for i, a in enumerate(meta['args']) if a['ty'] == 'bit']
+        for combo in (itertools.product([False, True], repeat=len(bits)) if bits else [()]):
+            vals = method_vals_ok(ctx, cls, meta)
+            for i, bv in zip(bits, combo):
+                if not any(ru.get('attr') == meta['args'][i]['name'] for ru in meta['rules']):
+                    vals[i] = bv
+            obj = real.make_method(cls, vals)
+            o = outcome(obj.marshal, show=show_bytes)
+            la.try_add(lambda: 'spec.args 0 %d' % meta['key'] + ''.join(' ' + sx(x) for x in vals),
+                       lambda: o if o.startswith('ok') else 'none', '%s%r' % (meta['name'], vals), meta['name'])
+    return [le.run(), lp.run(), la.run()]
